@@ -30,6 +30,7 @@ type Gen struct {
 	R *sim.Rand
 	// lastImgCfg is the last picture operation whose configuration object the caller keeps (see opImage)
 	lastImgCfg *sim.Op
+	nnested    int // nested tables created so far
 	tag        int
 	Alpha      []int // enabled alphabet classes (see Text)
 	Fam        int
@@ -344,6 +345,7 @@ func (g *Gen) opTable() (sim.Op, bool) {
 	case 10:
 		return sim.Op{K: "t.addpara", I: []int{t, a, b}, S: []sim.Str{g.str(g.Text())}}, true
 	case 11:
+		g.nnested++
 		return sim.Op{K: "t.nested", I: []int{t, a, b, r.Range(1, 2), r.Range(1, 2), 3000, 0, 0}}, true
 	case 12:
 		if g.NoCellList {
@@ -466,6 +468,9 @@ func (g *Gen) opImage() (sim.Op, bool) {
 	if g.ntables > 0 && r.Chance(0.25) && !g.NoCellImage {
 		op.K = "cellimg"
 		op.I = append(op.I, r.Intn(g.ntables), r.Range(0, g.MaxRows-1), r.Range(0, g.MaxCols-1))
+		if g.nnested > 0 && r.Chance(0.4) { // into a cell of a nested table
+			op.I[8], op.I[9], op.I[10] = 1000+r.Intn(8), r.Intn(2), r.Intn(2)
+		}
 		if op.I[4] > 3 {
 			op.I[4] = 0
 		}
